@@ -1509,6 +1509,111 @@ func (p *pipeGen) expiryCase() {
 	flook()
 }
 
+// flight: the single-flight key misses wait under. Questions one dimension apart (name byte, case,
+// type, class, CD, audience) ask on both routes; then failure states - exact ones in both partitions
+// and for an audience, zone ones on the way up, some forged under another question's hash - expire
+// and the retry key / flight key is read again for the question, its neighbours and its siblings.
+func (p *pipeGen) flightCase() {
+	r := p.r
+	p.start()
+	g := genGid(r)
+	for len(g.ls) < 2 {
+		g.ls = append([][]byte{genLabel(r)}, g.ls...)
+	}
+	if len(wireOf(g.ls)) > 180 {
+		g.ls = g.ls[len(g.ls)-2:]
+		for i := range g.ls {
+			if len(g.ls[i]) > 40 {
+				g.ls[i] = g.ls[i][:40]
+			}
+		}
+	}
+	g.scope = netip.Prefix{}
+	cl := genLabel(r)
+	if len(cl) > 60 {
+		cl = cl[:60]
+	}
+	sib := gid{ls: append([][]byte{cl}, g.ls[1:]...), qtype: g.qtype, class: g.class, cd: g.cd}
+	ask := func(x gid) {
+		c := netip.Prefix{}
+		if p.ecs && r.Chance(1, 3) {
+			c = genPrefix(r, false)
+		}
+		route := vlib.Pick(r, []string{"msg", "msg", "wire"})
+		if c.IsValid() {
+			route = "msg"
+		}
+		p.op("pipe dkey %s %s,%d,%d,%s %s", route, nameTok(x.ls), x.qtype, x.class, vlib.B(x.cd), fmtScope(c))
+	}
+	around := func() {
+		ask(g)
+		ask(gid{ls: flipCase(r, g.ls), qtype: g.qtype, class: g.class, cd: g.cd})
+		for k := 0; k < 4; k++ {
+			m, _ := mutate(r, g, []string{"byte", "type", "class", "cd", "child", "parent"})
+			m.scope = netip.Prefix{}
+			ask(m)
+		}
+		ask(sib)
+		if p.ecs { // two clients of one network, one of another
+			a := genPrefix(r, false)
+			p.op("pipe dkey msg %s,%d,%d,%s %s", nameTok(g.ls), g.qtype, g.class, vlib.B(g.cd), fmtScope(a))
+			p.op("pipe dkey msg %s,%d,%d,%s %s", nameTok(g.ls), g.qtype, g.class, vlib.B(g.cd), fmtScope(clientFor(r, a)))
+			p.op("pipe dkey msg %s,%d,%d,%s %s", nameTok(g.ls), g.qtype, g.class, vlib.B(g.cd), fmtScope(genPrefix(r, false)))
+		}
+	}
+	rkeys := func() {
+		for _, x := range []gid{g, sib} {
+			for _, cd := range []bool{false, true} {
+				y := x
+				y.cd = cd
+				y.scope = netip.Prefix{}
+				p.op("pipe rkey %s", y.tok())
+				if p.ecs && r.Chance(1, 3) {
+					y.scope = genPrefix(r, false)
+					p.op("pipe rkey %s", y.tok())
+				}
+			}
+		}
+	}
+	around()
+	var ids []int
+	for _, cd := range []bool{false, true} {
+		if r.Chance(2, 3) {
+			x := g
+			x.cd = cd
+			id := p.nextID()
+			switch r.Intn(4) {
+			case 0: // this question's state under a neighbour's hash
+				m, _ := mutate(r, x, []string{"byte", "type", "cd"})
+				p.op("pipe fset fq=%s q %s %d", m.tok(), x.tok(), id)
+			case 1: // a neighbour's state under this question's hash
+				m, _ := mutate(r, x, []string{"byte", "type", "cd", "class"})
+				p.op("pipe fset fq=%s q %s %d", x.tok(), m.tok(), id)
+			default:
+				p.op("pipe fset own q %s %d", x.tok(), id)
+			}
+			ids = append(ids, id)
+		}
+	}
+	for i := 1; i <= len(g.ls) && i <= 3; i++ {
+		if r.Chance(1, 2) {
+			id := p.nextID()
+			p.op("pipe fset own z %s,0,%d %d", nameTok(g.ls[i:]), g.class, id)
+			ids = append(ids, id)
+		}
+	}
+	rkeys()
+	around()
+	for _, id := range ids {
+		if r.Chance(2, 3) {
+			p.op("pipe fexp %d", id)
+			rkeys()
+		}
+	}
+	around()
+	p.op("pipe dump")
+}
+
 func (p *pipeGen) unicodePurgeCase() {
 	p.start()
 	// stored under a scope: K (Kelvin sign) / long s / raw high octets; purge the ASCII look-alike
@@ -1666,7 +1771,11 @@ func gen(r *vlib.R, n int, tier string, emit func(string)) {
 			if r.Chance(1, 3) {
 				p.unicodePurgeCase()
 			} else if r.Chance(1, 2) {
-				p.expiryCase()
+				if r.Bool() {
+					p.expiryCase()
+				} else {
+					p.flightCase()
+				}
 			} else {
 				p.purgeCase()
 			}
